@@ -141,6 +141,7 @@ pub fn argon2_bytes(ty: u64, pwd: &[u8], salt: &[u8], t: u64, memlimit: usize, o
 }
 
 fn compare(rep: &mut Report, what: &str, imps: Impls, refs: &[(&str, Option<&Vec<u8>>)], detail: Value) {
+    rep.case(&format!("{}|{}", what, detail));
     for (name, got) in imps {
         rep.evaluations += 1;
         match got {
@@ -453,6 +454,7 @@ pub fn cmd_sweep_c05(args: &[String]) {
             let (mut rx, mut tx) = ([0u8; 32], [0u8; 32]);
             let r = if role == "client" { ckx::crypto_kx_client_session_keys(&mut rx, &mut tx, &me_pk, &me_sk, &peer) } else { ckx::crypto_kx_server_session_keys(&mut rx, &mut tx, &me_pk, &me_sk, &peer) };
             rep.evaluations += 1;
+            rep.case(&format!("kx|{}|{}|{}", role, cls, hex(&peer)));
             let d = json!({"role": role, "peer_class": cls, "peer": pn, "peer_key": hex(&peer)});
             match (r.is_ok(), sod_ok) {
                 (true, true) => { if rx != srx || tx != stx { rep.fail("crypto_kx session keys differ from libsodium", d.clone()); } }
@@ -510,6 +512,7 @@ pub fn cmd_sweep_c13(args: &[String]) {
                 unsafe { so::crypto_box_seed_keypair(p2.as_mut_ptr(), s2.as_mut_ptr(), s.as_ptr()) };
                 if p2 != want_pk || s2 != want_sk { rep.fail("construction differs from libsodium's crypto_box_seed_keypair (specification error)", json!(len)); }
             }
+            rep.case(&format!("boxseed|{}|{}", len, round));
             let (pk, sk) = cb::crypto_box_seed_keypair(&s);
             let (mut pk2, mut sk2) = ([0u8; 32], [0u8; 32]);
             cb::crypto_box_seed_keypair_inplace(&mut pk2, &mut sk2, &s);
@@ -528,6 +531,7 @@ pub fn cmd_sweep_c13(args: &[String]) {
         compare(&mut rep, "public key from secret key", im, &[("libsodium", sod.as_ref())], json!({"i": i}));
         // kx and signing key pairs from 32-byte seeds
         let s: [u8; 32] = rng.arr();
+        rep.case(&format!("seed32|{}", hex(&s)));
         let (mut p2, mut s2) = ([0u8; 32], [0u8; 32]);
         unsafe { so::crypto_kx_seed_keypair(p2.as_mut_ptr(), s2.as_mut_ptr(), s.as_ptr()) };
         rep.evaluations += 1;
@@ -676,6 +680,7 @@ pub fn cmd_e2e(args: &[String]) {
                 && unsafe { so::crypto_kx_client_session_keys(srx.as_mut_ptr(), stx.as_mut_ptr(), cpk.as_ptr(), csk.as_ptr(), spk.as_ptr()) == 0 }
         };
         rep.evaluations += 1;
+        rep.case(&format!("e2e|{}", i));
         if !ok || drx != stx || dtx != srx { rep.fail("e2e: session keys of a dryoc/libsodium key exchange do not meet", json!({"i": i, "dryoc_is_client": dry_client})); continue; }
         if drx == dtx { rep.fail("e2e: both directions share one key", json!({"i": i})); }
         // stream dryoc -> libsodium keyed with dryoc's tx, and libsodium -> dryoc keyed with libsodium's tx
